@@ -139,7 +139,7 @@ pub fn run(o: &Opts) -> serde_json::Value {
             input = v;
         }
         let n = input.len();
-        let bom_like = n >= 1 && matches!(input[0], 0xEF | 0xFE | 0xFF | 0x00 | b'<');
+        let bom_like = crate::env::starts_with_signature(&input);
         let mut cuts = gen::random_cuts(&mut rng, n);
         if script == "bom" && rng.gen_bool(0.5) {
             cuts.insert(0, rng.gen_range(1..4));
